@@ -32,6 +32,7 @@ type Facts struct {
 	funcVals  map[ssa.Value][]*ssa.Function // memo for function-value resolution
 	argsOf    map[*ssa.Parameter][]ssa.Value
 	sumMemo   map[*ssa.Function]*calleeSummary
+	ambigName map[string]int             // simple function name -> number of top-level module functions carrying it
 	rootType  map[string]string          // "fn/var" root token of an access path -> typed rendering "<T>" / "<#i T>"
 	fldStore  map[*types.Var][]ssa.Value // function-typed values stored into struct fields (module-wide, field-based)
 	sitesOf   map[*ssa.Function][]ssa.CallInstruction
@@ -351,7 +352,7 @@ func (f *Facts) path0(v ssa.Value) string {
 		}
 		return "const:" + x.Value.ExactString()
 	case *ssa.Parameter:
-		tok := x.Parent().Name() + "/" + x.Name()
+		tok := f.fnTok(x.Parent()) + "/" + x.Name()
 		if _, ok := f.rootType[tok]; !ok {
 			idx := 0
 			for i, p := range x.Parent().Params {
@@ -369,12 +370,12 @@ func (f *Facts) path0(v ssa.Value) string {
 	case *ssa.FreeVar:
 		if cell := f.ownerCell(x); cell != nil {
 			f.noteCell(cell)
-			return "&" + cell.Parent().Name() + "/" + f.cellName(cell)
+			return "&" + f.fnTok(cell.Parent()) + "/" + f.cellName(cell)
 		}
-		return "&" + x.Parent().Name() + "/fv:" + x.Name()
+		return "&" + f.fnTok(x.Parent()) + "/fv:" + x.Name()
 	case *ssa.Alloc:
 		f.noteCell(x)
-		return "&" + x.Parent().Name() + "/" + f.cellName(x)
+		return "&" + f.fnTok(x.Parent()) + "/" + f.cellName(x)
 	case *ssa.Global:
 		return "&global:" + shortPkg(x.Pkg.Pkg.Path()) + "." + x.Name()
 	case *ssa.UnOp:
@@ -461,13 +462,13 @@ func (f *Facts) path0(v ssa.Value) string {
 		}
 		return fmt.Sprintf("call@%s:%s", f.w.Pos(x.Pos()), shortCallee(calleeName(x)))
 	case *ssa.Phi:
-		return fmt.Sprintf("phi@%s/%s", x.Parent().Name(), x.Name())
+		return fmt.Sprintf("phi@%s/%s", f.fnTok(x.Parent()), x.Name())
 	case *ssa.Next:
-		return fmt.Sprintf("next@%s/%s", x.Parent().Name(), x.Name())
+		return fmt.Sprintf("next@%s/%s", f.fnTok(x.Parent()), x.Name())
 	case *ssa.Range:
 		return "range(" + f.path(x.X) + ")"
 	case *ssa.MakeSlice, *ssa.MakeMap, *ssa.MakeChan:
-		return fmt.Sprintf("make@%s/%s", v.Parent().Name(), v.Name())
+		return fmt.Sprintf("make@%s/%s", f.fnTok(v.Parent()), v.Name())
 	}
 	return fmt.Sprintf("%T@%s", v, v.Name())
 }
@@ -911,7 +912,7 @@ func shortType(t types.Type) string {
 }
 
 func (f *Facts) noteCell(cell *ssa.Alloc) {
-	tok := cell.Parent().Name() + "/" + f.cellName(cell)
+	tok := f.fnTok(cell.Parent()) + "/" + f.cellName(cell)
 	if _, ok := f.rootType[tok]; ok {
 		return
 	}
@@ -974,7 +975,7 @@ func (f *Facts) summaryOf(g *ssa.Function, depth int) *calleeSummary {
 	seen := map[string]bool{}
 	for _, p := range g.Params {
 		f.path(p) // registers the root rendering
-		r := f.T(p.Parent().Name() + "/" + p.Name())
+		r := f.T(f.fnTok(p.Parent()) + "/" + p.Name())
 		if seen[r] {
 			s.ambiguous = true
 		}
@@ -1162,6 +1163,24 @@ func (f *Facts) expandAtomsDepth(atoms []Atom, depth int) []Atom {
 			success = !a.Neg
 		}
 		if call == nil {
+			continue
+		}
+		if sl, pred, isSearch := elemSearchCall(call); isSearch && success {
+			// slices.ContainsFunc(list, pred) came out true: for some element e of list, pred(e) held - the atoms
+			// common to pred's true returns hold with its parameter standing for an element of the list
+			if tg, ok := f.funcTargets(pred); ok && len(tg) == 1 && tg[0].Blocks != nil && len(tg[0].Params) == 1 {
+				if s := f.summaryOf(tg[0], depth); !s.ambiguous && len(s.paramRoot) == 1 {
+					lp := f.path(sl)
+					for _, fa := range s.onSuccess {
+						na := fa
+						na.TA = strings.ReplaceAll(fa.TA, s.paramRoot[0], f.T(lp)+"[*]")
+						na.TB = strings.ReplaceAll(fa.TB, s.paramRoot[0], f.T(lp)+"[*]")
+						na.A = strings.ReplaceAll(fa.TA, s.paramRoot[0], lp+"[*]")
+						na.B = strings.ReplaceAll(fa.TB, s.paramRoot[0], lp+"[*]")
+						out = append(out, na)
+					}
+				}
+			}
 			continue
 		}
 		g := calleeOf(call)
@@ -1380,4 +1399,81 @@ func (f *Facts) AtomsOnEdge(p, b *ssa.BasicBlock) []Atom {
 		out = append(out, f.expandAtoms([]Atom{f.atomOf(ifi.Cond, p.Succs[0] == b)})...)
 	}
 	return out
+}
+
+// elemSearchCall: c is a library search over the elements of a slice with a predicate (slices.ContainsFunc):
+// the slice, the predicate.
+func elemSearchCall(c *ssa.Call) (slice, pred ssa.Value, ok bool) {
+	n := calleeName(c)
+	if i := strings.Index(n, "["); i >= 0 {
+		n = n[:i] // instantiated generic
+	}
+	if n == "slices.ContainsFunc" && len(c.Call.Args) == 2 {
+		return c.Call.Args[0], c.Call.Args[1], true
+	}
+	return nil, nil, false
+}
+
+// elemCallbackOf: fn is a function literal handed to a library function that calls it with the elements of a slice
+// argument (slices.ContainsFunc / IndexFunc / DeleteFunc / SortFunc ...): the slice.
+func (f *Facts) elemCallbackOf(fn *ssa.Function) (ssa.Value, bool) {
+	mc := f.closSite[fn]
+	var fv ssa.Value = fn
+	if mc != nil {
+		fv = mc
+	}
+	refs := fv.Referrers()
+	if refs == nil {
+		return nil, false
+	}
+	for _, ref := range *refs {
+		c, isC := ref.(*ssa.Call)
+		if !isC {
+			continue
+		}
+		n := calleeName(c)
+		if i := strings.Index(n, "["); i >= 0 {
+			n = n[:i]
+		}
+		switch n {
+		case "slices.ContainsFunc", "slices.IndexFunc", "slices.DeleteFunc", "slices.SortFunc", "slices.SortStableFunc", "slices.MaxFunc", "slices.MinFunc":
+			if len(c.Call.Args) == 2 && c.Call.Args[1] == fv {
+				return c.Call.Args[0], true
+			}
+		}
+	}
+	return nil, false
+}
+
+// fnTok is the function part of an access-path root ("loginResponse/authRequest"): the function's name, qualified
+// by its receiver type (or package) when another module function has the same name - two methods called
+// getMetadata with a receiver called c would otherwise share their roots, and with them the types of those roots.
+func (f *Facts) fnTok(fn *ssa.Function) string {
+	if fn == nil {
+		return "?"
+	}
+	if f.ambigName == nil {
+		f.ambigName = map[string]int{}
+		for _, g := range f.w.Funcs {
+			if g.Parent() == nil {
+				f.ambigName[g.Name()]++
+			}
+		}
+	}
+	root := fn
+	for root.Parent() != nil {
+		root = root.Parent()
+	}
+	if f.ambigName[root.Name()] < 2 {
+		return fn.Name()
+	}
+	q := ""
+	if recv := root.Signature.Recv(); recv != nil {
+		if n := namedOf(recv.Type()); n != nil {
+			q = n.Obj().Name()
+		}
+	} else if root.Pkg != nil {
+		q = shortPkg(root.Pkg.Pkg.Path())
+	}
+	return q + "__" + fn.Name()
 }
